@@ -42,6 +42,9 @@ def shards(tier, seed):
         for c in [spaces.cfg_pqr(4, 0, 0), spaces.cfg_pqr(3, 0, 1)]:
             # pure-parity operands that are not versors (general bivector, even element, vector+trivector) against single-grade operands
             sh += mk('d=4: non-versor pure-parity operands x single grade blocks', c, ('list', 'parity4'), ('list', 'single4'), 4, kind='bin')
+        for c in [spaces.cfg_pqr(5, 0, 0), spaces.cfg_pqr(4, 0, 1)]:
+            sh += mk('d=5: mixed-parity operands (vector+bivector, scalar+vector) x bivector / scalar+vector+bivector / vector (results with more than 16 blades)',
+                     c, ('list', 'mixed5'), ('list', 'mixed5r'), 2, kind='bin')
         for c in d3:
             sh += mk('d=3: canonical subsets of <=2 blades (4 configurations)', c, ('S', 2), ('S', 2), 6, kind='bin')
             sh += mk('normsq: all 256 canonical subsets d=3', c, ('S', None), ('B',), 4, kind='un')
@@ -84,6 +87,12 @@ def _expand_special(shard, alg):
                 shard[side] = ['list', [blk(2), blk(0, 2), blk(1, 3), [c[5], c[10]]]]
             else:
                 shard[side] = ['list', [blk(0), blk(1), blk(alg.d), blk(alg.d - 1)]]
+        if sp[0] == 'list' and sp[1] in ('mixed5', 'mixed5r'):
+            # mixed-parity operands in d=5: the results store more than 16 blades
+            c = tuple(alg.canon2bin.values())
+            g = spaces.grade_of
+            blk = lambda *gs: [k for k in c if g(k) in gs]
+            shard[side] = ['list', [blk(1, 2), blk(0, 1)] if sp[1] == 'mixed5' else [blk(2), blk(0, 1, 2), blk(1)]]
         if sp[0] == 'list' and sp[1] == 'even-vec-biv':
             c = tuple(alg.canon2bin.values())
             g = spaces.grade_of
